@@ -533,7 +533,7 @@ static Token *copy_token_list(Token *tok) {
 
 static bool has_varargs(MacroArg *args) {
   for (MacroArg *ap = args; ap; ap = ap->next)
-    if (!strcmp(ap->name, "__VA_ARGS__"))
+    if (ap->is_va_args)
       return ap->tok->kind != TK_EOF;
   return false;
 }
